@@ -169,6 +169,17 @@ def tables_c05(out, notes):
     # ---- router case tables
     out.append(f"Definition no_args_tests : list str := {coq_list(coq_str(x) for x in sorted(R.RouterCase.NO_ARGS_TESTS))}.")
     out.append(f"Definition test_names : list str := {coq_list(coq_str(x) for x in sorted(R.RouterCase.TEST_VALIDATIONS))}.")
+    # accepted argument counts of every test, tabulated from the validators themselves (0..4 arguments):
+    # dropping the arguments of a test on load is lossless only if the test accepts none
+    ar = []
+    for t in sorted(R.RouterCase.TEST_VALIDATIONS):
+        chk = R.RouterCase.TEST_VALIDATIONS[t]
+        try:
+            ok = [n for n in range(5) if chk([None] * n)]
+        except Exception as e:
+            raise Refuse(f"cannot tabulate the argument validator of test {t}: {e}")
+        ar.append(f"({coq_str(t)}, {coq_list(str(n) + '%nat' for n in ok)})")
+    out.append(f"Definition test_arities : list (str * list nat) := {coq_list(ar)}.")
 
     # ---- key lists of the render() dict literals (a dropped/added field changes a constant)
     rk = [("Exit", C.Exit.render), ("FlowReference", C.FlowReference.render), ("ContactFieldReference", C.ContactFieldReference.render),
